@@ -171,8 +171,11 @@ impl Match {
         if name.is_empty() {
             return None;
         }
-        let pos = self.group_names.iter().position(|s| s.as_ref() == name)?;
-        self.captures[pos].clone()
+        // A name may be shared by groups in different alternatives; like named_groups(),
+        // report the group that participated in the match.
+        self.named_groups()
+            .find(|(group_name, _)| *group_name == name)
+            .and_then(|(_, range)| range)
     }
 
     /// Return an iterator over the named groups of a Match.
